@@ -37,7 +37,9 @@ def _sig(rj):
     clause = rj.invariant
     if clause is None:
         clause = "Terminates" if ev.get("e") in ("Hang", "Crash") else "step"
-    return {"opt": rs.get("opt", "?"), "clause": clause, "pol": rs.get("pol", "?"), "event": ev.get("e", "?")}
+    dsm = rs.get("opt") == "DownhillSimplex" or "DownhillSimplex" in (rs.get("cfg") or "")
+    return {"opt": rs.get("opt", "?"), "clause": clause, "pol": rs.get("pol", "?"), "event": ev.get("e", "?"),
+            "simplex": "yes" if dsm else "no"}
 
 
 def _drop_scenarios(trace, out, bad_indices):
@@ -120,7 +122,7 @@ def run(tier, seed):
     # 1. design model: the optimize()/step() template with an abstract step - safety, then liveness
     cfg = os.path.join(wd, "design.cfg")
     if quick:
-        consts = ('1, 3', "BoxesQ1", "ObjsAll", 1, 1)
+        consts = ('1, 3', "BoxesQ1", "ObjsOne", 1, 1)
     else:
         consts = ('0, 1, 2, 3', "Boxes1", "ObjsAll", 1, 1)
     _design_cfg(cfg, *consts)
@@ -129,10 +131,10 @@ def run(tier, seed):
     if r.invariant:
         ck.violation("design model Optimizer violates %s" % r.invariant, [r.out[-6000:]], tag="model")
     cfgl = os.path.join(wd, "live.cfg")
-    lconsts = ('0, 2, 3', "BoxesL", "ObjsOne", 1, 1)
-    _design_cfg(cfgl, *lconsts, live=True, pols='"auto", "keep"')
+    lconsts = ('0, 3' if quick else '0, 2, 3', "BoxesL", "ObjsOne", 1, 1)
+    _design_cfg(cfgl, *lconsts, live=True, pols='"keep"' if quick else '"auto", "keep"')
     r = vc.model_check(SPEC, "Optimizer", cfgl, timeout=2400, heap="3g", workers=min(vc.NCPU, 8))
-    ck.add_model("Optimizer/liveness", r, "Budgets={%s} Boxes=%s Objs=%s MaxRank=%d MaxInner=%d Pols={auto,keep}; WF on loop" % lconsts)
+    ck.add_model("Optimizer/liveness", r, "Budgets={%s} Boxes=%s Objs=%s MaxRank=%d MaxInner=%d Pols=%s; WF on loop" % (lconsts + ("{keep}" if quick else "{auto,keep}",)))
     if r.invariant:
         ck.violation("design model Optimizer violates %s (every optimize() must end)" % r.invariant, [r.out[-6000:]], tag="live")
     # 2. implementation traces
@@ -162,6 +164,17 @@ def run(tier, seed):
             first = False
         os.remove(tr)
     ck.extra["per_optimiser"] = stats
+    # 3. probe of the known finding (simplex method stops early on some ill-conditioned quadratics): fixed scenario
+    tr = os.path.join(wd, "probe-dsm.ndjson")
+    vc.run_driver(exe, ["--only", "DownhillSimplex", "--n", 6000, "--sc", 4352], tr, timeout=600, env={"VERIF_SEED": "777"})
+    n_ev, rej, st = vc.validate_trace(SPEC, "OptimizerTrace", TCFG, tr, parallel=1, heap="1g")
+    ck.events += n_ev
+    ck.traces += 1
+    ck.extra["probe_simplex_premature_stop_reproduces"] = bool(rej)
+    ck.handle_rejections(rej, _sig)
+    os.remove(tr)
+    for f in glob.glob(os.path.join(SPEC, "*_TTrace_*")):
+        os.remove(f)
     ck.rule = ("seeded random scenarios: 11 optimisers round-robin x dim 1..6 (1-D optimisers in 1-D) x SPD quadratics (cond<=1e3) / two "
                "smooth convex non-quadratic families x random starts x interval constraints containing start and minimiser (none/wide/mixed/"
                "tight, open or closed ends) x 3 policies x tolerance 1e-4..1e-10 x budgets {1..200, 20000} x call histories (optimize before "
